@@ -1,10 +1,10 @@
-"""helper run on the remote side by the end-to-end suites: argdump.py STATUS OUTHEX args...
-prints its argv (hex, '|'-separated) and a newline, then the payload, and exits with STATUS"""
+"""helper run on the remote side by the end-to-end suites: argdump.py STATUS OUTHEX REPEAT args...
+prints its argv (hex, '|'-separated) and a newline, then the payload REPEAT times, and exits with STATUS"""
 import sys
 
 st = int(sys.argv[1])
-out = bytes.fromhex(sys.argv[2])
-sys.stdout.write("|".join(a.encode("utf-8", "surrogateescape").hex() for a in sys.argv[3:]) + "\n")
+out = bytes.fromhex(sys.argv[2]) * int(sys.argv[3])
+sys.stdout.write("|".join(a.encode("utf-8", "surrogateescape").hex() for a in sys.argv[4:]) + "\n")
 sys.stdout.flush()
 sys.stdout.buffer.write(out)
 sys.stdout.flush()
